@@ -22,6 +22,7 @@ S_three   == Sh(<<A, C>>, <<F("m1", "", "rp2", ""), F("", "", "", ""), F("m1", "
 MCShapesQuick == {S_all, S_m1, S_db, S_pred, S_two, S_two2}
 MCShapesThorough == {S_all, S_m1, S_db, S_rp, S_pred, S_two, S_two2, S_other}
 MCShapesKnown == {S_two}
+MCShapesDead == {S_all, S_m1, S_two, S_pred}
 MCShapesDeep == MCShapesThorough \cup {S_three}
 MCShapesThree == {S_m1, S_two, S_db, S_other}
 
